@@ -179,6 +179,51 @@ fn run_fsink(seed: u64) -> Result<u64, Fail> {
             }
         }
     }
+    // the packet sink has its own copy of the mode table
+    if res.is_ok() {
+        'nc: for (mi, mname) in ["create", "overwrite", "append"].iter().enumerate() {
+            for (ii, init) in [None, Some(vec![]), Some(vec![1u8, 2, 3]), Some((0..100u8).collect::<Vec<u8>>())].iter().enumerate() {
+                let path = dir.join(format!("nc_{mi}_{ii}"));
+                if let Some(c) = init {
+                    std::fs::write(&path, c).unwrap();
+                }
+                let mode = match mi { 0 => Mode::Create, 1 => Mode::Overwrite, _ => Mode::Append };
+                let (w, r) = rustradio::stream::new_nocopy_stream::<u32>();
+                let sink = rustradio::file_sink::NoCopyFileSink::new(r, &path, mode);
+                n += 1;
+                let desc = format!("packet sink, mode {mname}, file initially {}", match init { None => "absent".to_string(), Some(c) => format!("{} bytes", c.len()) });
+                match (mi, init, sink) {
+                    (0, Some(_), Ok(_)) => { res = Err(fail(t, "C17", "create-refuses-an-existing-file", format!("{desc}: opened instead of failing"), seed)); break 'nc; }
+                    (0, Some(c), Err(_)) => {
+                        let now = std::fs::read(&path).unwrap();
+                        if &now != c { res = Err(fail(t, "C17", "create-refuses-an-existing-file", format!("{desc}: refused, but the file now holds {} bytes", now.len()), seed)); break 'nc; }
+                    }
+                    (_, _, Err(e)) => { res = Err(fail(t, "C17", "mode-table", format!("{desc}: open failed: {e}"), seed)); break 'nc; }
+                    (_, _, Ok(mut sink)) => {
+                        let mut want = match (mi, init) { (2, Some(c)) => c.clone(), _ => vec![] };
+                        for v in [0x41424344u32, 7, 0xffffffff] {
+                            w.push(v, &[]);
+                            if let Err(f) = work(t, seed, &mut sink) { res = Err(f); break 'nc; }
+                            want.extend(v.to_le_bytes());
+                            want.push(10);
+                            // consumed means on disk
+                            let on_disk = std::fs::read(&path).unwrap();
+                            if on_disk.len() < want.len() || on_disk[..want.len()] != want[..] {
+                                res = Err(fail(t, "C17", "consumed-means-on-disk", format!("{desc}: a packet was consumed but the file holds {} bytes, {} must be there", on_disk.len(), want.len()), seed));
+                                break 'nc;
+                            }
+                        }
+                        drop(sink);
+                        let now = std::fs::read(&path).unwrap();
+                        if now != want {
+                            res = Err(fail(t, "C17", "mode-table", format!("{desc}: after writing 3 packets the file holds {} bytes, specified {} bytes", now.len(), want.len()), seed));
+                            break 'nc;
+                        }
+                    }
+                }
+            }
+        }
+    }
     // a backlog: far more input than one call handles; after EVERY call what was consumed must be on disk
     if res.is_ok() {
         let path = dir.join("backlog");
@@ -206,6 +251,84 @@ fn run_fsink(seed: u64) -> Result<u64, Fail> {
     }
     let _ = std::fs::remove_dir_all(&dir);
     res.map(|_| n)
+}
+
+// ------------------------------------------------------------------------------------------------ fsrc
+// FileSource<Float>: the output is the file's whole samples, `repeat` times, in order, whatever room the output offers
+// per call (the reader goes through a BufReader: a read shorter than requested is NOT end of file), EOF only after
+// everything has been emitted; a trailing partial sample is not data.
+fn run_fsrc(seed: u64) -> Result<u64, Fail> {
+    let t = "fsrc";
+    let mut rng = Rng(seed * 15485863 + 3);
+    let dir = std::env::temp_dir().join(format!("verif_bx_fsrc_{}_{}", std::process::id(), seed));
+    let _ = std::fs::remove_dir_all(&dir);
+    std::fs::create_dir_all(&dir).unwrap();
+    let path = dir.join("data.f32");
+    // sizes around the BufReader buffer (8 KiB = 2048 samples), around the stream capacity (1 024 000) and tiny
+    let nsamp = [0usize, 1, 5, 2047, 2048, 2049, 10_000, 300_000, 1_100_000][rng.below(9)];
+    let extra = rng.below(4); // 0..3 trailing bytes of a partial sample
+    let repeat = if nsamp > 100_000 { [1u64, 2][rng.below(2)] } else { [0u64, 1, 2, 3, 5][rng.below(5)] };
+    let samples: Vec<Float> = (0..nsamp).map(|i| (i as Float) * 0.5 - 3.0).collect();
+    let mut bytes: Vec<u8> = samples.iter().flat_map(|v| v.to_le_bytes()).collect();
+    bytes.extend(std::iter::repeat(0xee).take(extra));
+    std::fs::write(&path, &bytes).unwrap();
+    let style = (seed % 4) as usize;
+    let params = format!("samples={nsamp} trailing_bytes={extra} repeat={repeat} drain_style={style}");
+    let res = (|| -> Result<u64, Fail> {
+        let (mut src, out) = match FileSource::<Float>::new(&path) {
+            Ok(x) => x,
+            Err(e) => return Err(fail(t, "C14+C16", "file-opens", format!("{params}: {e}"), seed)),
+        };
+        src.repeat(rustradio::Repeat::finite(repeat));
+        let want_total = nsamp as u64 * repeat;
+        let mut got: u64 = 0;
+        let mut works = 0u64;
+        let mut eof = false;
+        let mut idle = 0;
+        while !eof && idle < 50 {
+            let v = work(t, seed, &mut src)?;
+            works += 1;
+            if v == 2 { eof = true; }
+            if v == 4 { return Err(fail(t, "C14+C16", "no-error-on-a-readable-file", format!("{params}: work() returned an error"), seed)); }
+            // drain: everything, or only a little so that the next call finds little room
+            let (rb, _) = out.read_buf().unwrap();
+            let avail = rb.len();
+            let take = match style {
+                0 => avail,
+                1 => avail.min(rng.pick(&[1, 100, 3001, 5000])),
+                2 => if avail > 1_000_000 { rng.pick(&[1, 7, 500, 2047, 2049]) } else { 0 },
+                _ => avail.min(rng.pick(&[0, 1, 2048, 1_000_000])),
+            };
+            for k in 0..take {
+                let idx = ((got + k as u64) % (nsamp.max(1) as u64)) as usize;
+                if nsamp == 0 || rb.slice()[k].to_bits() != samples[idx].to_bits() {
+                    return Err(fail(t, "C14+C16", "emits-the-file-samples-in-order-every-repetition", format!("{params}: output sample {} is {:?}, the file has {:?} there", got + k as u64, rb.slice()[k], samples.get(idx)), seed));
+                }
+            }
+            rb.consume(take);
+            got += take as u64;
+            idle = if v == 1 && take == 0 { idle + 1 } else { 0 };
+            if works > 200_000 { break; }
+        }
+        if !eof {
+            return Err(fail(t, "C16", "eof-after-the-configured-repetitions", format!("{params}: no EOF after {works} calls, {got} samples drained"), seed));
+        }
+        // what is still buffered in the stream
+        let (rb, _) = out.read_buf().unwrap();
+        for k in 0..rb.len() {
+            let idx = ((got + k as u64) % (nsamp.max(1) as u64)) as usize;
+            if nsamp == 0 || rb.slice()[k].to_bits() != samples[idx].to_bits() {
+                return Err(fail(t, "C14+C16", "emits-the-file-samples-in-order-every-repetition", format!("{params}: output sample {} differs from the file", got + k as u64), seed));
+            }
+        }
+        let total = got + rb.len() as u64;
+        if total != want_total {
+            return Err(fail(t, "C16", "eof-only-when-everything-emitted", format!("{params}: EOF after {total} samples, {want_total} = {nsamp} x {repeat} are due"), seed));
+        }
+        Ok(works)
+    })();
+    let _ = std::fs::remove_dir_all(&dir);
+    res
 }
 
 // ------------------------------------------------------------------------------------------------ s2pdu
@@ -252,6 +375,10 @@ fn run_s2pdu(seed: u64) -> Result<u64, Fail> {
             let v = work(t, seed, &mut b)?;
             works += 1;
             while let Some((p, _)) = o.pop() {
+                // a burst that outgrows max_size (body or tail) is discarded, never delivered
+                if p.len() > max_size {
+                    return Err(fail(t, "C08+C10", "no-pdu-longer-than-max_size", format!("tail {tail} max_size {max_size}: a PDU of {} samples was delivered", p.len()), seed));
+                }
                 pdus.push(p);
             }
             idle = if pos == data.len() && fed == 0 && v != 0 { idle + 1 } else { 0 };
@@ -785,7 +912,7 @@ fn bx_io() {
             }
         }
     }));
-    let targets = std::env::var("BX_TARGETS").unwrap_or_else(|_| "rtlsdr,fsink,s2pdu,auenc,audec,sigmf,tcp,wpcr,il2p,stream,totext,misc".into());
+    let targets = std::env::var("BX_TARGETS").unwrap_or_else(|_| "rtlsdr,fsink,fsrc,s2pdu,auenc,audec,sigmf,tcp,wpcr,il2p,stream,totext,misc".into());
     let n: u64 = std::env::var("BX_N").ok().and_then(|s| s.parse().ok()).unwrap_or(40);
     let base: u64 = std::env::var("VERIF_SEED").ok().and_then(|s| s.parse().ok()).unwrap_or(1);
     let mut failed = false;
@@ -801,6 +928,7 @@ fn bx_io() {
                 "s2pdu" => run_s2pdu(seed),
                 "auenc" => run_auenc(seed),
                 "tcp" => run_tcp(seed),
+                "fsrc" => { if i > 11 { break; } run_fsrc(seed) }
                 "wpcr" => { if i > 0 { break; } run_wpcr(seed) }
                 "il2p" => run_il2p(seed),
                 "stream" => run_stream(seed),
